@@ -12,7 +12,9 @@ CLAUSES = {
     #  observation, not a violation)
     "C09": {"build", "build_error", "cov_contains", "lookup", "stream_sem", "stream"},
     "C03": {"cov_contains"},               # C03 over pipeline operations: returned tiles lie inside the advertised coverage
-    "C02": {"stream_sem", "stream"},       # C02 over pipeline operations: the stream clauses only
+    # C02 over pipeline operations: the stream against the LOOKUPS (r.expect); the stream against the model's semantics
+    # (stream_sem) is C08's / C09's matter -- an operation that is wrong in lookup and stream alike keeps C02
+    "C02": {"stream"},
 }
 
 
@@ -23,7 +25,7 @@ CLAUSES = {
 #   otherwise                                                      -> not this property's matter
 # and every non-leaf direct child of a mixed tree is run as a case of its own, so nothing goes unjudged.
 OWN_OPS = {"C08": {"overlay"}, "C09": {"zoom", "bbox"}}
-RELATIONAL = {"C08": {"rel_lookup", "rel_stream", "overlay_coverage"}, "C09": {"rel_lookup", "rel_stream"}}
+RELATIONAL = {"C08": {"rel_lookup", "rel_stream", "rel_build", "overlay_coverage"}, "C09": {"rel_lookup", "rel_stream", "rel_build"}}
 
 
 def tree_ops(t, acc=None):
@@ -70,8 +72,11 @@ def run_pipes(prop, tier, seed, replay, stages, rule, nontrivial, run=None, fini
             t = c["tree"]
             if c.get("invalid") or c.get("debug") or not ({"overlay"} & tree_ops(t) and {"zoom", "bbox"} & tree_ops(t)):
                 continue
-            for ch in (t.get("srcs") or [t.get("src")]):
+            todo = list(t.get("srcs") or [t.get("src")])
+            while todo:                                   # every non-leaf DESCENDANT (children, grandchildren, ...)
+                ch = todo.pop()
                 if isinstance(ch, dict) and ch.get("op") not in ("leaf", "debug"):
+                    todo += list(ch.get("srcs") or [ch.get("src")])
                     key = json.dumps(ch, sort_keys=True) + json.dumps(c["sources"], sort_keys=True)
                     if key not in seen:
                         seen.add(key)
@@ -107,15 +112,12 @@ def run_pipes(prop, tier, seed, replay, stages, rule, nontrivial, run=None, fini
                     if rc["tree"]["op"] not in own:
                         skipped["mixed_root_is_another_operation"] += 1
                         continue
-                    if cl not in RELATIONAL[prop]:
+                    # (an INVALID ARGUMENT of the root operation is the root's to report, whatever is below it)
+                    if cl not in RELATIONAL[prop] and not (rc.get("invalid") == 1 and cl == "build_error"):
                         skipped["mixed_absolute_clause"] += 1
                         continue
                 elif cl not in CLAUSES[prop]:
                     continue
-            if cl == "tilejson_of_operation":
-                # beyond the listed properties: the document an operation hands on (TileJson.tla merge / limit rules)
-                run.observation("tilejson_of_operation", {"vpl": fl["case"]["vpl"]})
-                continue
             if cl == "declared":
                 run.observation("declared_compression", {"vpl": fl["case"]["vpl"], "declared": fl["case"].get("declared")})
                 continue
@@ -123,7 +125,7 @@ def run_pipes(prop, tier, seed, replay, stages, rule, nontrivial, run=None, fini
                 run.observation("coverage_formula", {"what": "the advertised coverage differs from source coverage /\\ filter box "
                                                      "(the model's formula; the properties ask for containment -- C03 -- and, for overlays, the union of the sources' advertised coverages -- clause overlay_coverage)", "vpl": fl["case"]["vpl"], "cov": fl["case"].get("cov")})
                 continue
-            if cl not in CLAUSES[prop] and not (own is not None and cl in RELATIONAL[prop]):
+            if cl not in CLAUSES[prop] and not (own is not None and (cl in RELATIONAL[prop] or cl == "build_error")):
                 continue
             c = fl["case"]
             rec = {"clause": cl, "vpl": c["vpl"], "files": c["files"], "invalid": c["invalid"], "case": c}
@@ -132,6 +134,15 @@ def run_pipes(prop, tier, seed, replay, stages, rule, nontrivial, run=None, fini
             run.failure(rec)
     run.traces += s["cases"]
     run.evaluations += s["cases"]
+    # beyond the listed properties: the TileJSON document of every operation (a pass of its own; whatever happens in it is an
+    # observation, never a verdict and never a tool error)
+    if own is not None and not replay:
+        try:
+            tv = C.validate_trace("trace/Trace_PipelineTj.tla", "trace/Trace_PipelineTj.cfg", prop + "_trace_tj", t, timeout=1500, heap="12g")
+            if tv.fails:
+                run.observation("tilejson_of_operation", {"count": len(tv.fails), "first_vpl": tv.fails[0][1]["case"]["vpl"]})
+        except Exception as e:                      # noqa: BLE001
+            run.observation("tilejson_stage_error", {"what": str(e)[:300]})
     selftest = None
     if own is not None and not replay:
         # the relational clauses must bite: in up to 6 recorded mixed cases the root's answer for one coordinate is dropped
@@ -158,13 +169,18 @@ def run_pipes(prop, tier, seed, replay, stages, rule, nontrivial, run=None, fini
                 f.write(json.dumps(r) + "\n")
                 n += 1
                 if n == 6:
+                    # ... and a seventh: the same mixed tree reported as NOT buildable although every child builds on its own
+                    r2 = json.loads(ln)
+                    r2.update({"built": 0, "panic": 0, "err": "self-test", "kids_built": [1] * len(r2["kids"])})
+                    f.write(json.dumps(r2) + "\n")
+                    n += 1
                     break
         if n:
             cv = C.validate_trace("trace/Trace_Pipeline.tla", "trace/Trace_Pipeline.cfg", prop + "_corrupted", ct, timeout=600)
-            named = [any(cl in ("rel_lookup", "rel_stream") for cl in fl["clauses"]) for (_, fl) in cv.fails]
+            named = [any(cl in ("rel_lookup", "rel_stream", "rel_build") for cl in fl["clauses"]) for (_, fl) in cv.fails]
             selftest = {"corrupted_records": n, "rejected_by_a_relational_clause": sum(named)}
             if sum(named) != n:
-                raise C.ToolError("self-test: %d corrupted mixed-tree records, only %d rejected by rel_lookup / rel_stream" % (n, sum(named)))
+                raise C.ToolError("self-test: %d corrupted mixed-tree records, only %d rejected by rel_lookup / rel_stream / rel_build" % (n, sum(named)))
     nt = [c for c in case_list if nontrivial(c)]
     if chained:
         run.nontrivial += len(nt)
